@@ -278,15 +278,36 @@ Definition search_state (s : state) (pattern : json) (now : Z)
   | Linear => search_ids s (map fst (st_facts s)) pattern now []
   end.
 
+(** dependsOn: the fact's deleteWith array names [x] literally (string
+    equality on the elements; nothing is read as a pattern variable). *)
+Definition dw_names (fact : json) (x : string) : bool :=
+  match jget "deleteWith" fact with
+  | Some (JArr l) => mem_json (JStr x) l
+  | _ => false
+  end.
+
+(** the candidates of the search whose stored fact depends on [id] (checked
+    before anything is removed) *)
+Definition dw_targets (s : state) (id : string) (ids : list string) : list string :=
+  filter (fun j => match alookup j (st_facts s) with
+                   | Some fact => dw_names fact id
+                   | None => false
+                   end) ids.
+
+Definition skipped (skip : option string) (j : string) : bool :=
+  match skip with Some x => String.eqb j x | None => false end.
+
 Section WithRem.
   (** [rem_rec s id now]: the (fuelled) recursive removal. *)
   Variable rem_rec : state -> string -> Z -> state * outcome bool.
 
-  Fixpoint rem_list (s : state) (ids : list string) (skip : string) (now : Z) : state * outcome unit :=
+  (** the loop over the targets; [skip]: the id that the loop passes over
+      (LinearState.deleteDependencies: `if id == target { continue }`) *)
+  Fixpoint rem_list (s : state) (ids : list string) (skip : option string) (now : Z) : state * outcome unit :=
     match ids with
     | [] => (s, Ok tt)
     | j :: r =>
-        if String.eqb j skip then rem_list s r skip now
+        if skipped skip j then rem_list s r skip now
         else match rem_rec s j now with
              | (s1, Ok _) => rem_list s1 r skip now
              | (s1, Err e) => (s1, Err e)
@@ -295,14 +316,18 @@ Section WithRem.
              end
     end.
 
-  (** deleteDependencies: the search only notes the expired items it meets
-      (they are purged when the public operation has released its lock) *)
+  (** deleteDependencies: the search for {"deleteWith": [id]} finds the
+      candidates (it reads an id that starts with "?" as a variable, which
+      matches every element: D14); the candidates that name the id literally
+      are the targets.  The search only notes the expired items it meets
+      (they are purged when the public operation has released its lock). *)
   Definition delete_dependencies (s : state) (id : string) (now : Z) : state * outcome unit :=
     match search_state s (dw_pattern id) now with
     | (s1, Ok found) =>
-        (* the linear state skips a dependent that is the id itself *)
-        rem_list s1 (map fst found)
-                 (match st_kind s with Linear => id | Indexed => String (ascii_of_nat 0) "never" end) now
+        (* the linear state passes over a target that is the id itself; the
+           indexed state passes over nothing *)
+        rem_list s1 (dw_targets s1 id (map fst found))
+                 (match st_kind s with Linear => Some id | Indexed => None end) now
     | (s1, Err e) => (s1, Err e)
     | (s1, Panic w) => (s1, Panic w)
     | (s1, OutOfFuel) => (s1, OutOfFuel)
